@@ -587,6 +587,31 @@ def f32_at_be(b, off):
     return struct.unpack(">f", bytes(b[off:off + 4]))[0]
 
 
+def cells32(b):
+    """the little-endian uint32 cells of a bytes value"""
+    import struct
+    return [struct.unpack_from("<I", bytes(b), 4 * c)[0] for c in range(len(b) // 4)]
+
+
+def nzlead(a, n):
+    """number of leading non-zero entries of a[0:n]"""
+    k = 0
+    while k < n and a[k] != 0:
+        k += 1
+    return k
+
+
+def ck_image(s, b, off):
+    """b[off:] starts with the documented export of the cuckoo filter s: capacity buckets of bucket_size little-endian
+    uint32 slots (the stored fingerprints first, the rest 0), then uint32 bucket_size, uint32 max_swaps"""
+    n = s._cuckoo_capacity
+    w = s._bucket_size
+    foot = off + 4 * smul(n, w)
+    return (all(all(le_bytes(b, off + 4 * (smul(q, w) + j), 4) == (s._buckets[q][j] if j < len(s._buckets[q]) else 0)
+                    for j in range(0, w)) for q in range(0, n))
+            and le_bytes(b, foot, 4) == w and le_bytes(b, foot + 4, 4) == s._CuckooFilter__max_cuckoo_swaps)
+
+
 def u64_at(b, off, v):
     """the 8 bytes b[off:off+8] are the little-endian base-256 digits of v"""
     return (le_bytes(b, off, 8) == v
